@@ -53,6 +53,10 @@ def raw_table(rng):
         ("garbage", json.dumps({"type": n, "key": k, "value": d, "headers": "oops"}).encode()),
         ("garbage", json.dumps({"type": n, "key": k, "value": d, "headers": {"operation": 3}}).encode()),
         ("garbage", b'{"type":"x","key":"a","headers":{"operation":"insert"}'),
+        # a known control value next to a wrongly typed sibling: the headers do not decode as control headers, so this is not a
+        # control message but a change message of no (hence an unregistered) type: rejected when strict, ignored otherwise
+        ("change 4 0 other 0 1", json.dumps({"headers": {"control": "reset", "offset": 7}}).encode()),
+        ("change 4 0 other 0 1", json.dumps({"headers": {"control": "snapshot-start", "offset": ["x"]}}).encode()),
         ("control reset", json.dumps({"headers": {"control": "reset"}}).encode()),
         ("control reset", json.dumps({"HEADERS": {"CONTROL": "reset", "Offset": "9"}}).encode()),
         ("control reset", json.dumps({"type": n, "key": k, "value": d, "headers": {"operation": "insert", "control": "reset"}}).encode()),
